@@ -466,6 +466,24 @@ pub async fn run_history(hi: usize, spec: &HSpec, seed: u64, thorough: bool, emi
                 r.cls, r.cls, r.block.id, short(&r.block.hash), upto, serde_json::json!({"history": hi, "seed": seed, "spec": show_spec(spec), "rec": i})));
         }
     }
+    // purge: once the tip stands at N, no file of a block with id ≤ N − 2·gp is left, whether that block was on the longest chain or not
+    if h.has_removes() && h.panicked.is_none() {
+        let files = disk_at(&h.journal, h.journal.len());
+        let tip_id = h.obs_after.last().map(|o| o.tip.0).unwrap_or(0);
+        let mut stale = vec![];
+        for (n, c) in files.iter().filter(|(n, _)| n.ends_with(".sai")) {
+            if let Ok(b) = Block::deserialize_from_net(c) {
+                if b.id + 2 * gp <= tip_id {
+                    stale.push((b.id, n.clone()));
+                }
+            }
+        }
+        emit("H", if stale.is_empty() { "purge:no-file-below-the-horizon" } else { "purge:FILE-LEFT-BELOW-THE-HORIZON" });
+        if !stale.is_empty() {
+            emit("M", &format!("C12/purged-block-file-left-behind/{}\tthe tip stands at {} (window 2 x {}), yet the block directory still holds {:?}: a restart loads them first\t{}",
+                if h.has_fork() { "history-with-side-branch" } else { "linear-history" }, tip_id, gp, stale, serde_json::json!({"history": hi, "seed": seed, "spec": show_spec(spec)})));
+        }
+    }
     // the model follows histories without purge only (Model/Chain has no 2·gp purge / rebroadcast)
     let modelled = !h.has_removes() && h.recs.iter().map(|r| r.block.id).max().unwrap_or(0) < gp;
     let mut proj = Proj { ids: Ids::default() };
@@ -793,6 +811,10 @@ pub fn histories(seed: u64, tier: &str) -> Vec<HSpec> {
             // a late side block near the tip
             let at = steps.len() as i64 - 2;
             steps.push(st(at, 301, true, false, 2));
+        } else {
+            // an EARLY side block (a sibling of the fourth block, delivered right after it and stamped later, so that delivery
+            // order and loading order agree): it is never adopted and reaches the purge horizon long before the history ends
+            steps.insert(3, st(2, 950, true, false, 2));
         }
         v.push(HSpec { name: format!("purge-{}", i), gp, prune_after: gp.max(3) - 1, del: true, steps });
     }
